@@ -4,6 +4,7 @@
 #                                 GOMAXPROCS 1, 4 and 16 and with 1 and 8 processes running at once; event-log hashes must agree
 #   selftest.sh fidelity          simfs vs a real directory, simnet vs a real net/http server (differential)
 #   selftest.sh suite             the repository's own test suite on the instrumented copy
+#   selftest.sh seeded [id...]    every change in /verif/seeded must make the check named in its meta.json fail
 #   selftest.sh mutants [ID...]   every patch in /verif/mutants must make its property's quick check fail
 set -u
 cd /verif
@@ -35,6 +36,24 @@ suite)
   printf '\nrequire simrt v0.0.0\nreplace simrt => /verif/simrt\n' >> $S/repo/go.mod
   (cd $S/repo && /verif/.cache/instrument-$IKEY $S/repo && go test -vet=off -count=1 . ./backend/... ./internal/goskipiter/... 2>&1 | tail -8)
   exit ${PIPESTATUS[0]} ;;
+seeded)
+  # every independent seeded change must make the check named in its meta.json fail
+  shift
+  rc=0
+  for d in seeded/*/; do
+    id=$(basename $d)
+    prop=$(python3 -c "import json;print(json.load(open('$d/meta.json'))['check_property'] or '')")
+    if [ $# -gt 0 ] && ! echo " $* " | grep -q " $id "; then continue; fi
+    if [ -z "$prop" ]; then echo "n/a      $id (recorded miss: $(python3 -c "import json;print(json.load(open('$d/meta.json'))['note'][:90])"))"; continue; fi
+    W=$(mktemp -d /dev/shm/verif-seeded.XXXXXX)
+    git -C /repo worktree add -q --detach $W HEAD 2>/dev/null || { echo "worktree failed"; exit 2; }
+    if ! git -C $W apply $PWD/$d/patch.diff 2>/dev/null; then echo "SKIP (does not apply): $id"; git -C /repo worktree remove --force $W; continue; fi
+    out=$(VERIF_REPO=$W VERIF_SECONDS=${MUTANT_SECONDS:-45} ./check.sh $prop quick 2>&1); code=$?
+    if [ $code -eq 1 ]; then echo "caught   $id by $prop: $(echo "$out" | grep -m1 '^violation' | cut -c12-150)";
+    else echo "MISSED   $id by $prop (exit $code)"; rc=1; fi
+    git -C /repo worktree remove --force $W 2>/dev/null; rm -rf $W
+  done
+  exit $rc ;;
 fidelity)
   # stub fidelity: simfs against BasePathFs(OsFs) on a real directory, simnet against a real net/http server
   S=$(mktemp -d /dev/shm/verif-fid.XXXXXX); trap 'rm -rf "$S"' EXIT
@@ -61,5 +80,5 @@ mutants)
     git -C /repo worktree remove --force $W 2>/dev/null; rm -rf $W
   done
   exit $rc ;;
-*) echo "usage: selftest.sh determinism|suite|fidelity|mutants" >&2; exit 2 ;;
+*) echo "usage: selftest.sh determinism|suite|fidelity|mutants|seeded" >&2; exit 2 ;;
 esac
